@@ -28,6 +28,12 @@ def history_check(prop, tier, seed, shapes, monitors, modules, profiles, p_inval
     # long vectors (around and beyond 64 elements: machine-word and chunk boundaries of anything that packs per-element flags)
     big = gen.vec_random(shapes, 24 if tier == "quick" else 400, 8, seed + 11, p_invalid=p_invalid, max_len=150, start=(60, 135))
     suites.append(run_suite(prop, big, profiles, monitors, "long"))
+    if prop in ("C01", "C02"):
+        # a user `Clone` that panics at its k-th call inside Extend<Ref> / to_vec: `Vec<T>` is left with whole elements only
+        fsh = [x for x in shapes if x in ("Two", "Flat4", "Heap", "NMid", "Deep")] if tier == "quick" else shapes
+        _, oth = gen.fault_scenarios(fsh, 2 if tier == "quick" else 4, seed)
+        cf = [x for x in oth if x.tag in ("extend_refs-fault", "to_vec-fault")]
+        suites.append(run_suite(prop, cf, ["debug"] if tier == "quick" else profiles, monitors, "clone-fault", compare_model=False))
     if prop == "C03":
         # every other API that moves ownership: RefMut::replace, pointer writes, writes through views and iterators
         L = min(z["L"], 4)
